@@ -21,7 +21,8 @@ PRELUDE_ORDER = [
     "10_scalar.rs",
     ("20_group.tmpl", "Sig", "sig"),
     ("20_group.tmpl", "Pk", "pk"),
-    "30_gt_hash.rs",
+    "30_gt.rs",
+    "31_abstract_spec.rs",
     "40_abstract_impl.rs",
     "50_bytes.rs",
     "60_shares.rs",
@@ -32,6 +33,17 @@ HEADER = """#![allow(unused_imports, unused_variables, unused_mut, non_snake_cas
 use vstd::prelude::*;
 verus! {
 """
+
+
+PRELUDE_IMPL = [
+    "00_algebra.rs",
+    "10_scalar.rs",
+    ("20_group.tmpl", "G1Projective", "g1"),
+    ("20_group.tmpl", "G2Projective", "g2"),
+    "30_gt.rs",
+    "36_impl_deps.rs",
+    "50_bytes.rs",
+]
 
 
 class ToolFailure(Exception):
@@ -139,7 +151,7 @@ ERR_KINDS_SEMANTIC = [
 
 
 def run_verus(path, rlimit=30, seed=None, extra=None, timeout=1800, threads=16):
-    cmd = ["verus", path, "--output-json", "--time-expanded", "--num-threads", str(threads), "--rlimit", str(rlimit), "--multiple-errors", "5"]
+    cmd = ["verus", path, "--output-json", "--time-expanded", "--num-threads", str(threads), "--rlimit", str(rlimit), "--multiple-errors", "5", "--triggers-mode", "silent"]
     if seed is not None:
         cmd += ["--smt-option", "smt.random_seed=%d" % (seed % 100000)]
     if extra:
